@@ -16,19 +16,21 @@ CHECKS = {
             "constructor input forms, all 256 byte values of text/binary, every float exponent x boundary mantissas, all list trees up to the "
             "stated depth/branching) is encoded by the real variables API and compared byte for byte with an independent E5 encoder; the bytes "
             "are decoded into fresh and reused objects and at an offset, and position and value compared. Exhaustive over the stated family, "
-            "small-scope outside it.",
+            "small-scope outside it. Thread-pair independence: every ordered pair of a small operation alphabet runs on two threads with separate objects under every schedule with <= 1 (2) delays where every source line of secsgem.secs.* is a scheduling point; each thread must get the result it gets alone.",
             "Trusts /verif/ref/e5.py (written from the E5 format, no secsgem import) and Python's struct for IEEE-754; values outside the "
             "boundary families are covered only by the small-scope hypothesis.", "DESIGN.md 3/C01"),
     "C02": ("exploration", "enum", "bounded-exhaustive enumeration of reference-encoded (canonical and non-canonical) E5 items",
             "Byte strings are produced by the independent reference encoder, including every assignment of 1/2/3 length bytes to every node "
             "of every tree of the family, every finite float exponent x boundary mantissas, and every catalogue data item x every format "
-            "code it allows; the real decoder's value, consumed length and canonical re-encoding are compared with the reference on each.",
+            "code it allows; the real decoder's value, consumed length and canonical re-encoding are compared with the reference on each, into fresh objects and "
+            "into objects that already decoded something else (typed, ANYVALUE, Array). Thread-pair independence: every ordered pair of a small operation alphabet runs on two threads with separate objects under every schedule with <= 1 (2) delays where every source line of secsgem.secs.* is a scheduling point; each thread must get the result it gets alone.",
             "Trusts ref/e5.py; byte strings the reference decoder rejects are out of scope; JIS-8 only through the JIS8 class.",
             "DESIGN.md 3/C02"),
     "C14": ("exploration", "enum", "bounded-exhaustive input enumeration of the Item API against the reference codec and the variables API",
             "Every value of the C01 families is pushed through Item(value) in every constructor input form (value held, bytes equal to the "
             "reference and to the variables API), Item.decode over every assignment of length bytes (canonical re-encode, class, value), and "
-            "Item.from_value over every integer at +-1 around every power of two up to 2^65 and structured python values (narrowest type).",
+            "Item.from_value over every integer at +-1 around every power of two up to 2^65 (after converting equal-valued floats/bools first) and "
+            "structured python values (narrowest type). Thread-pair independence: every ordered pair of a small operation alphabet runs on two threads with separate objects under every schedule with <= 1 (2) delays where every source line of secsgem.secs.* is a scheduling point; each thread must get the result it gets alone.",
             "Trusts ref/e5.py; floats excluded from the from_value type oracle (statement lists bool/int/str/bytes/list).", "DESIGN.md 3/C14"),
     "C05": ("model_checking", "vrt+hbfs", "explicit-state history BFS on the real HsmsProtocol + delay-bounded schedule exploration of the accept race",
             "Every history over a 22-event alphabet (connect, peer close, enable/disable, all control messages with matching/alien system "
@@ -48,14 +50,15 @@ CHECKS = {
             "timed-out) requests.",
             "A source line of the listed racy region is the atom of interleaving; bounded by K and E (levels completed are in the evidence).",
             "DESIGN.md 3/C06"),
-    "C07": ("model_checking", "vrt+hbfs", "explicit-state history BFS on real GEM handlers with trace invariants",
-            "Every history over {enable, disable, link selected, link lost, inbound S1F13, S1F14 with COMMACK 0/1 and latest/stale/alien system "
+    "C07": ("model_checking", "vrt+hbfs", "explicit-state history BFS on real GEM handlers with trace invariants + delay-bounded schedule exploration of S1F14 vs link loss / T3",
+            "Every history over {enable, disable, link selected, link lost, inbound S1F13, S1F14 with COMMACK 0/1/empty/missing and latest/stale/alien system "
             "bytes, S1F1, a user-callback primary, timer expiry} up to the exhaustive depth, then BFS over canonical states, is executed on "
             "fresh real GemHostHandler and GemEquipmentHandler objects (real HsmsProtocol underneath). Invariants: COMMUNICATING only after a "
             "completed S1F13/S1F14 exchange with COMMACK 0 on the current link (and a valid exchange does establish), link loss/disable leave "
             "it, no callback runs while not communicating, from every reached state a retry S1F13 appears within T3 + delay (bounded "
             "liveness probe in virtual time), and no retry is sent before previous-attempt-failure + delay; run in two timer configurations "
-            "(T3 > delay, and 2 x T3 < delay so that timers of abandoned attempts can still be pending).",
+            "(T3 > delay, and 2 x T3 < delay so that timers of abandoned attempts can still be pending). The accepting S1F14 is raced against "
+            "link loss and against T3 expiry under every schedule with <= 2 (3) delays at line granularity of the state-machine engine.",
             "Default schedule per event; virtual timers fire only through the explicit tick event; a stale S1F14 of the same link may or may not establish.",
             "DESIGN.md 3/C07"),
     "C08": ("model_checking", "vrt+hbfs", "exhaustive enumeration of inbound message headers/bodies and short histories executed on real handlers + delay-bounded schedule exploration of the reply path",
@@ -99,12 +102,13 @@ CHECKS = {
             "over an 18-character awkward alphabet for A and J, float exponent sweeps and all list trees to the bound; every token string up to "
             "length 5 (6 thorough) over a 12-token alphabet and every single-token deletion/insertion/replacement of valid texts is parsed under a "
             "watchdog: the parser must terminate and must raise whenever the reference recogniser finds a missing closing bracket or an unknown type; "
-            "every single-character deletion, quote insertion and proper prefix of the valid texts must terminate.",
+            "every single-character deletion, quote insertion and proper prefix of the valid texts must terminate. Thread-pair independence: every ordered pair of a small operation alphabet runs on two threads with separate objects under every schedule with <= 1 (2) delays where every source line of secsgem.secs.* is a scheduling point; each thread must get the result it gets alone.",
             "Rejection is demanded only for the two defects the statement names; watchdog is 5 s wall-clock per parse.", "DESIGN.md 3/C15"),
     "C16": ("exploration", "enum", "bounded-exhaustive enumeration against an independent E4 block codec, all merges, all single-byte corruptions",
             "Body lengths at every 244-byte boundary (0,1,2,243..245,487..489,732, 255 blocks, 32 767 blocks thorough) x header fields at 1 (2) "
             "deviations: blocks compared byte for byte with ref/e4.py and decoded back field by field; every interleaving of the block sequences of "
-            "2-3 messages with distinct system bytes is fed to the reassembly of a real SecsIProtocol (exactly-once, header, body); every byte "
+            "2-3 messages with distinct system bytes is fed to the reassembly of a real SecsIProtocol (exactly-once, header, body), also with one protocol object per message and equal "
+            "system bytes; every byte "
             "position x every other value of encoded blocks with 0/1/244 data bytes (checksum above and below 0x100) and every other 16-bit value "
             "of the checksum field must never decode to a valid block.",
             "Reassembly is driven through Protocol._dispatch_block (the receiver thread's seam); blocks of one message stay in order.", "DESIGN.md 3/C16"),
@@ -115,14 +119,15 @@ CHECKS = {
             "a message carrying only S/F and decoded through StreamsFunctions.decode (same class, equal value, same bytes). The YAML "
             "catalogue vs class attributes, F/F+1 pairing, reply flags, mirrored directions and the lookup of all 128x256 numbers are enumerated completely; the flags of a constructed function object "
             "(the ones the protocol layers read) are compared with the declaration; for every function, update() of one container must leave older "
-            "and newer default containers on the catalogue class.",
+            "and newer default containers on the catalogue class, and a look-up made before update() must not hide it afterwards. Thread-pair independence: every ordered pair of a small operation alphabet runs on two threads with separate objects under every schedule with <= 1 (2) delays where every source line of the catalogue, SFDL reader and container modules is a scheduling point; each thread must get the result it gets alone.",
             "Values beyond one/two deviations from the default are covered by the small-scope hypothesis; over-long values are observed, not demanded to be rejected.",
             "DESIGN.md 3/C03"),
     "C19": ("exploration", "enum", "bounded-exhaustive enumeration of definition trees against an independent reader of the documented rules",
             "Every definition tree up to depth 3 / width 3 (bounded child pools) over four data item names with optional list names is rendered in "
             "2-4 whitespace styles and with a comment at every line end; shape (record / open array / item), key order and key names of "
             "functions.generate(text) are compared with ref/sfdl.py; every closing bracket deleted or replaced by an opening one and every item name replaced by an unknown one "
-            "must be rejected; the shipped definitions are checked the same way.",
+            "must be rejected; the second element generated from an array's kept description must have the shape of the first; the shipped "
+            "definitions are checked the same way. Thread-pair independence: every ordered pair of a small operation alphabet runs on two threads with separate objects under every schedule with <= 1 (2) delays where every source line of secsgem.secs.* is a scheduling point; each thread must get the result it gets alone.",
             "Sibling keys kept distinct; an unnamed list around a single named list, empty lists and trailing text are not generated (undocumented).",
             "DESIGN.md 3/C19"),
     "C04": ("model_checking", "vrt+explore", "exhaustive enumeration of cut sets of frame streams on the real HsmsProtocol + delay-bounded schedule exploration; frame fields vs independent codec",
@@ -132,7 +137,8 @@ CHECKS = {
             "replies must equal those of the uncut stream. Coalesced arrival is explored over all schedules with <= K delays at line granularity. "
             "A real ByteQueue alone (one producer, one consumer framing like the HSMS and SECS-I receivers) is explored under every schedule with "
             "<= 2 (3) delays where every bytecode instruction of ByteQueue is a scheduling point. Outbound: for packet sizes 5/16/64 every frame "
-            "size up to 3 packets + 2 and, for the shipped 1 MiB, sizes around 1 (2, 3) MiB, the bytes given to send_data equal the reference frame.",
+            "size up to 3 packets + 2 and, for the shipped 1 MiB, sizes around 1 (2, 3) MiB, the bytes given to send_data equal the reference frame. "
+            "Streams are also fed after an earlier connection of the same object ended inside a frame (8 offsets).",
             "LoopConnection delivers segments from its receiver thread like TcpConnection (<=1024-byte reads); stepwise mode uses the default schedule.",
             "DESIGN.md 3/C04"),
     "C18": ("model_checking", "vrt+explore", "explicit-state search over generated machine definitions x transition sequences + delay-bounded schedule exploration of concurrent triggers",
@@ -168,17 +174,20 @@ CHECKS = {
             "chunking deviations per execution, the all-single-bytes chunking (also paced: each chunk arrives while the receiver already waits), "
             "and one corrupted byte at every header/data/checksum position "
             "of a block are executed. Oracle: transcript grammar (ENQ, EOT, block, ACK|NAK), success => delivered once with identical header and "
-            "body, corrupted => NAK, not delivered, failure reported, following messages still pass, nothing hangs.",
+            "body, corrupted => NAK, not delivered, failure reported, following messages still pass, nothing hangs. Also: bodies that are exact "
+            "multiples of 244, a second sender thread on the same side (alternating blocks), a NAKed block against the sender's wake-up "
+            "(<= K delays), and the same message sent again after a failed attempt.",
             "Only one side transmits at a time (the statement's assumption); length-byte corruption is a recorded known finding (no T1/T2).",
             "DESIGN.md 3/C17"),
     "C20": ("model_checking", "vrt+explore", "stateless delay- and cut-bounded exploration of two real GEM handlers joined by a virtual link",
             "A real GemHostHandler and a real GemEquipmentHandler (each on a real HsmsProtocol) are joined by an in-memory link; for every "
             "configuration (active side x enable order x equipment initial control state) the script - both reach COMMUNICATING within "
             "T5+T6+2(T3+delay) virtual seconds, eleven host service calls compared with the equipment's own tables, subscribe + trigger => exactly "
-            "one collection_event_received, clear all + subscribe again with a new report + trigger, go offline/online, remote command, restart of the host, restart of the equipment, all again - is "
+            "one collection_event_received, clear all + subscribe again with a new report + trigger, a refused two-constant S2F15 (nothing changed), go offline/online, remote command, restart of the host, restart of the equipment, all again - is "
             "executed for every assignment of <= 1 segment cut; the start-up handshake (and one services phase, thorough: the full script) is "
             "explored under every schedule with <= 1 delay at the runtime's operations and at every line of the waiter registration "
-            "(GemHandler.waitfor_communicating / _on_state_communicating).",
+            "(GemHandler.waitfor_communicating / _on_state_communicating). Mid-flight phase: on a paced link either side is disabled while a cut "
+            "message to it is half delivered, re-enabled, and everything must hold again.",
             "Link connect latency is zero; line-level scheduling points only in the waiter registration (13+ threads); K = 1.", "DESIGN.md 3/C20"),
 }
 
